@@ -1025,7 +1025,7 @@ def Twinned (ix : Index) (g : String) : Prop :=
 theorem onlyResponse_of_sub (ix : Index) (g : String) (hnt : ¬ Twinned ix g) (e : Desc) (he : e ∈ ix.manifests)
     (hsub : Sub e) (hed : e.dig = g) : onlyResponse ix g = true := by
   unfold onlyResponse
-  simp only [Bool.decide_and, Bool.and_eq_true, Bool.not_eq_true', List.isEmpty_eq_false_iff, ne_eq,
+  simp only [Bool.decide_and, Bool.and_eq_true, List.isEmpty_eq_false_iff, ne_eq,
     List.all_eq_true, List.mem_filter, decide_eq_true_eq, decide_not, Bool.not_eq_eq_eq_not, Bool.not_true,
     decide_eq_false_iff_not, and_imp]
   constructor
